@@ -70,6 +70,22 @@ impl IoUringHostState {
     }
 }
 
+#[cfg(turmoil_verif)]
+impl IoUringHostState {
+    /// Verification hook (read-only): canonical dump of every ring (queues by
+    /// user_data and operation kind, deadlines relative to `now`; buffer pointers
+    /// are never printed). Used only to hash states during exhaustive search.
+    pub fn verif_dump(&self, now: Duration) -> String {
+        let mut out = format!("next_ring_fd={}\n", self.next_ring_fd);
+        for (fd, ring) in &self.rings {
+            out.push_str(&format!("ring {fd}: "));
+            ring.verif_dump(now, &mut out);
+            out.push('\n');
+        }
+        out
+    }
+}
+
 impl Default for IoUringHostState {
     fn default() -> Self {
         Self::new()
